@@ -126,11 +126,17 @@ CLAIMED = {
              "8/16/64/128: identical events, spans, error message and position.",
         ref="DESIGN.md 5/C10", tech="Rocq proof (per-operation input refinement) + differential correspondence across back-ends; whole-scanner simulation partial"),
     "C12": dict(
-        text="Theorem C12_recount_is_line_and_column characterises the position recount pos_at (line = 1 + breaks, column = characters "
-             "since the last break) used as oracle; the extracted marker_ok is applied to every marker of every span and error the "
-             "implementation reports on both back-ends; span-shape rules, Display of errors and MarkedYaml node spans are checked on the "
-             "implementation; model pipeline vs implementation including all spans and error positions.",
-        ref="DESIGN.md 5/C12", tech="Rocq proof (recount specification) + extracted oracle on every reported marker + differential correspondence; scanner mark invariant partial"),
+        text="3 theorems. C12_scanner_positions_true / C12_pipeline_positions_true: for EVERY NUL-free input and every fuel, both "
+             "markers of every token span the scanner model produces, of every event span of the whole model pipeline, and the marker "
+             "of the scan or parse error it may end with are TRUE positions of the input (index within the input, line = 1 + breaks "
+             "before it with CR LF counted once, column = characters since the last break): joint proof ScanPos*.v carrying the "
+             "invariant 'the mark is the recount of what has been consumed' through every scanner function (each skip justified by "
+             "the character just peeked), and true marks through the token queue, simple keys and parser states. "
+             "C12_recount_is_line_and_column characterises the recount used as specification and oracle. The extracted marker_ok "
+             "is applied to every marker of every span and error the implementation reports on both back-ends; span-shape rules, "
+             "Display of errors and MarkedYaml node spans are checked on the implementation; model pipeline vs implementation "
+             "including all spans and error positions. Known finding: an embedded NUL ends the stream at a false position.",
+        ref="DESIGN.md 5/C12", tech="Rocq proof (mark invariant through the whole scanner and parser model, all NUL-free inputs; recount specification) + extracted oracle on every reported marker + differential correspondence"),
     "C14": dict(
         text="Theorem C14_positions_crlf: line/column of the image of a position are unchanged under LF -> CR LF (recount level). "
              "Scanner-level commutation is not yet a theorem: every CR-free input is parsed as is, with CRLF and with CR on two back-ends "
